@@ -298,7 +298,7 @@ structure Upd (h h' : Heap) (b i : Nat) (c' : Cell) : Prop where
 theorem Upd.of_setCell {h : Heap} {b i : Nat} {c : Cell} (hc : h.cell? b i = some c) (c' : Cell) :
     Upd h (h.setCell b i c') b i c' :=
   ⟨rfl, ids_setCell _ _ _ _, fun _ hb => find?_setCell_ne h i c' hb, cell?_setCell_eq c' hc,
-    fun j hj => cell?_setCell_ne _ _ _ _ (fun hh => hj hh.2), count?_setCell _ _ _ _ _⟩
+    fun _ hj => cell?_setCell_ne _ _ _ _ (fun hh => hj hh.2), count?_setCell _ _ _ _ _⟩
 
 theorem Upd.addLog {h h' : Heap} {b i : Nat} {c' : Cell} (u : Upd h h' b i c') (e : Ev) : Upd h (h'.addLog e) b i c' :=
   ⟨u.next, u.ids, u.out, u.cell, u.other, u.count⟩
